@@ -462,7 +462,7 @@ func Delete(containerID []byte, signature interop.Signature, token []byte) {
 	domain := storage.Get(ctx, key).(string)
 	if len(domain) != 0 {
 		storage.Delete(ctx, key)
-		deleteNNSRecords(ctx, domain)
+		releaseNNSName(ctx, domain, containerID)
 	}
 	removeContainer(ctx, containerID, ownerID)
 	runtime.Log("remove container")
@@ -505,23 +505,6 @@ func releaseNNSName(ctx storage.Context, domain string, containerID []byte) {
 			contract.Call(nnsContractAddr, "addRecord", contract.All, domain, recordtype.TXT, res[i])
 		}
 	}
-}
-
-func deleteNNSRecords(ctx storage.Context, domain string) {
-	defer func() {
-		// Exception happened.
-		if r := recover(); r != nil {
-			var msg = r.([]byte)
-			// Expired or deleted entries are OK.
-			if std.MemorySearch(msg, []byte("has expired")) == -1 &&
-				std.MemorySearch(msg, []byte("not found")) == -1 {
-				panic("unable to delete NNS record: " + string(msg))
-			}
-		}
-	}()
-
-	nnsContractAddr := storage.Get(ctx, nnsContractKey).(interop.Hash160)
-	contract.Call(nnsContractAddr, "deleteRecords", contract.All, domain, recordtype.TXT)
 }
 
 // Get method returns a structure that contains a stable marshaled Container structure,
